@@ -360,10 +360,108 @@ def stream_cases():
     })
 
 
+# ------------------------------------------------------------------------------------------------
+# the same argument objects handed to two calls: the second call gives what it gives on fresh, equal arguments, and the
+# caller's events / nodes / values are not changed by a call
+
+SHARED_OPTS = [{}, {"canonical": True}, {"allow_unicode": True}, {"allow_unicode": False}, {"width": 10}, {"indent": 6}, {"line_break": "\r\n"},
+               {"default_style": '"'}, {"default_style": "|"}, {"default_flow_style": True}, {"default_flow_style": False}, {"explicit_start": True},
+               {"version": (1, 1)}, {"tags": {"!e!": "tag:example.com,2000:"}}, {"sort_keys": False}, {"encoding": "utf-16-le"}]
+EMIT_KEYS = ("canonical", "indent", "width", "allow_unicode", "line_break")
+SER_KEYS = EMIT_KEYS + ("encoding", "explicit_start", "explicit_end", "version", "tags")
+
+
+def _full_summary(x):
+    """Every public attribute of an event / node graph (the caller's view of its own objects)."""
+    seen = {}
+
+    def go(o):
+        if isinstance(o, (str, bytes, int, float, bool, type(None))):
+            return repr(o)
+        if id(o) in seen:
+            return ("ref", seen[id(o)])
+        if isinstance(o, (list, tuple)):
+            seen[id(o)] = len(seen)
+            return (type(o).__name__,) + tuple(go(i) for i in o)
+        if isinstance(o, dict):
+            seen[id(o)] = len(seen)
+            return ("dict",) + tuple((go(k), go(v)) for k, v in o.items())
+        if type(o).__name__ == "Mark":
+            return ("mark", o.index, o.line, o.column)
+        if hasattr(o, "__dict__"):
+            seen[id(o)] = len(seen)
+            return (type(o).__name__,) + tuple((k, go(v)) for k, v in sorted(vars(o).items()))
+        return repr(o)
+    return go(x)
+
+
+def eval_shared(case):
+    import yaml
+    stream, i1, i2, level = case
+    text = gd.render(stream).text
+    o1, o2 = SHARED_OPTS[i1 % len(SHARED_OPTS)], SHARED_OPTS[i2 % len(SHARED_OPTS)]
+    cl = {"shared:%s" % level}
+    failures = []
+    evals = 0
+    backends = [("py", yaml.Loader, yaml.Dumper, yaml.SafeLoader, yaml.SafeDumper)]
+    if have_c():
+        backends.append(("c", yaml.CLoader, yaml.CDumper, yaml.CSafeLoader, yaml.CSafeDumper))
+    for bname, L, D, SL, SD in backends:
+        def make():
+            if level == "emit":
+                return list(yaml.parse(text, Loader=L))
+            if level == "serialize":
+                return list(yaml.compose_all(text, Loader=L))
+            return list(yaml.load_all(text, Loader=SL))
+
+        def call(arg, opts):
+            if level == "emit":
+                return yaml.emit(arg, Dumper=D, **{k: v for k, v in opts.items() if k in EMIT_KEYS})
+            if level == "serialize":
+                return yaml.serialize_all(arg, Dumper=D, **{k: v for k, v in opts.items() if k in SER_KEYS})
+            return yaml.dump_all(arg, Dumper=SD, **opts)
+        try:
+            shared, fresh = make(), make()
+        except yaml.YAMLError:
+            cl.add("shared:text-rejected")
+            continue
+        except RecursionError:
+            raise
+        before = _full_summary(shared)
+        outs = []
+        for arg, opts_seq in ((shared, (o1, o2)), (fresh, (o2,))):
+            for o in opts_seq:
+                evals += 1
+                try:
+                    outs.append(("ok", call(arg, o)))
+                except yaml.YAMLError as e:
+                    outs.append(("exc", type(e).__name__))
+                except RecursionError:
+                    raise
+                except Exception as e:
+                    outs.append(("exc", "non-yaml:" + exc_key(e)))
+        if _full_summary(shared) != before:
+            failures.append(Failure("arguments-changed-by-call:%s:%s" % (level, bname), "options %r then %r\ntext=%r" % (o1, o2, text[:300])))
+        if outs[1] != outs[2]:
+            failures.append(Failure("second-call-on-same-arguments-differs:%s:%s" % (level, bname),
+                                    "after a call with %r, the call with %r gave %.200r; on fresh equal arguments %.200r\ntext=%r" % (o1, o2, outs[1], outs[2], text[:300])))
+        if o1 != o2:
+            cl.add("shared:different-options")
+    return Eval(failures, sorted(cl), nontrivial="shared:different-options" in cl, ident=repr(case), evals=evals,
+                sample={"text": text[:200], "level": level, "options": [repr(o1), repr(o2)]})
+
+
+def shared_cases():
+    streams = st.fixed_dictionaries({"docs": st.lists(gd.documents(6), min_size=1, max_size=3), "nl": st.just("\n"), "bom": st.just(False),
+                                     "lead_comment": st.just(False), "strip_final": st.just(False)})
+    return st.tuples(streams, st.integers(0, 15), st.integers(0, 15), st.sampled_from(["emit", "emit", "serialize", "dump"]))
+
+
 def arms(tier):
     return [Arm("histories", eval_history, histories, quick=1200, thorough=40000),
             Arm("focused", eval_history, focused_histories, quick=1200, thorough=40000),
-            Arm("streams", eval_stream, stream_cases, quick=3000, thorough=150000)]
+            Arm("streams", eval_stream, stream_cases, quick=3000, thorough=150000),
+            Arm("shared-arguments", eval_shared, shared_cases, quick=3000, thorough=150000)]
 
 
 REQUIRED_CLASSES = ["success-after-failure", "generator-abandoned", "call:dump", "call:emit", "call:serialize", "call:load_all",
